@@ -108,11 +108,52 @@ def gen_numbers(rng, tier):
     return cases + chunk("int", iops)
 
 
+# ------------------------------------------------------------------ wildcard matcher
+def gen_glob(rng, tier):
+    ops = []
+    # exhaustive correspondence universe: all patterns x names over {a,b,*} / {a,b}
+    LP, LN = (5, 6) if tier == "thorough" else (4, 4)
+    pats = ["".join(t) for n in range(LP + 1) for t in itertools.product("ab*", repeat=n)]
+    names = ["".join(t) for n in range(LN + 1) for t in itertools.product("ab", repeat=n)]
+    for p in pats:
+        for n in names:
+            ops.append("glob %s %s" % (hx(p), hx(n)))
+    # names containing '*' (a parameter may be called so) on a smaller universe
+    for p in ["".join(t) for n in range(4) for t in itertools.product("a*", repeat=n)]:
+        for n in ["".join(t) for n in range(4) for t in itertools.product("a*", repeat=n)]:
+            ops.append("glob %s %s" % (hx(p), hx(n)))
+    # random longer ones: the name is built to match the pattern (or nearly)
+    nr = 30000 if tier == "thorough" else 3000
+    alpha = "abc._"
+    for i in range(nr):
+        k = rng.randint(0, 4)
+        toks = ["".join(rng.choice(alpha) for _ in range(rng.choice([0, 1, 1, 2, 3, 5]))) for _ in range(k + 1)]
+        pat = ""
+        name = ""
+        for j, t in enumerate(toks):
+            if j:
+                pat += "*" * rng.choice([1, 1, 1, 2])
+                name += "".join(rng.choice(alpha) for _ in range(rng.choice([0, 0, 1, 2, 4])))
+            pat += t
+            name += t
+        r = rng.random()
+        if r < 0.25 and name:                    # near miss: perturb the name
+            q = rng.randrange(len(name))
+            name = name[:q] + rng.choice(alpha) + name[q + (rng.random() < 0.5):]
+        elif r < 0.35:                           # repeated-suffix shape (the defect of the old code)
+            name = name + rng.choice(["", "x"]) + name
+        elif r < 0.40:
+            name = name[: rng.randint(0, len(name))]
+        ops.append("glob %s %s" % (hx(pat), hx(name)))
+    return chunk("glob", ops, 400)
+
+
 # ------------------------------------------------------------------ entry points
 def generate(seed, tier):
     rng = random.Random(seed)
     cases = []
     cases += gen_numbers(rng, tier)
+    cases += gen_glob(rng, tier)
     return cases
 
 
@@ -168,4 +209,18 @@ def coverage_extra(cases, answers):
                 n = len(unhx(t[1]))
                 lens[min(n, 30)] = lens.get(min(n, 30), 0) + 1
     st["num_length_histogram"] = {str(k): v for k, v in sorted(lens.items())}
+    g = {"glob_total": 0, "glob_matched": 0, "glob_star_free_patterns": 0, "glob_stars_histogram": {}}
+    for c, a in zip(cases, answers):
+        ops = [l for l in c if l.strip() and not l.startswith(("case", "#", "="))]
+        for l, r in zip(ops, a):
+            t = l.split()
+            if t[0] == "glob":
+                g["glob_total"] += 1
+                if r.startswith("1"):
+                    g["glob_matched"] += 1
+                k = unhx(t[1]).count("*")
+                if k == 0:
+                    g["glob_star_free_patterns"] += 1
+                g["glob_stars_histogram"][str(k)] = g["glob_stars_histogram"].get(str(k), 0) + 1
+    st.update(g)
     return {"distribution": st}
